@@ -288,6 +288,12 @@ def r20b(P, R):
                 "the zip that measures the common prefix pairs %s, not `from` with `to`" % sorted(za), loc=loc)
         clo = tw[0]["args"][0] if tw[0]["args"] else None
         verdict = _pred_kind(clo)
+        coarse = _coarse_equality(P, clo)
+        if coarse:
+            R.violated("R20-b", "common-prefix:by-equality", "components of the two paths are compared through %s, an equality coarser than identity "
+                       "(case folding / lossy conversion): on a case-sensitive file system `App/` and `app/` are different directories, the "
+                       "relative path drops that level and resolves to the wrong file" % coarse, loc=loc)
+            continue
         want = "Ne" if tw[0]["method"] in ("position", "skip_while") else "Eq"
         if verdict is None:
             R.undecided("R20-b", "common-prefix:by-equality", "predicate of %s not recognised" % tw[0]["method"], loc=loc)
@@ -549,6 +555,30 @@ def _expr_sig(e):
     return " ".join(out)
 
 
+_COARSE = ("eq_ignore_ascii_case", "to_lowercase", "to_uppercase", "to_ascii_lowercase", "to_ascii_uppercase", "to_string_lossy", "trim", "trim_end_matches",
+           "trim_start_matches", "starts_with", "ends_with", "file_stem", "len")
+
+
+def _coarse_equality(P, clo):
+    """name of a case-folding / lossy operation applied on the way to the comparison of the two components (in the predicate or in a
+    workspace helper it calls), or None"""
+    if clo is None:
+        return None
+    todo, seen = [clo], set()
+    while todo:
+        e = todo.pop()
+        for y in subnodes(e):
+            if y.get("k") in ("Call", "MethodCall"):
+                cn = call_name(y) or ""
+                last = cn.split("::")[-1]
+                if last in _COARSE:
+                    return last
+                if cn in P.fns and cn not in seen and not P.fns[cn].derived:
+                    seen.add(cn)
+                    todo.append(P.fns[cn].body)
+    return None
+
+
 def _pred_kind(clo):
     """'Eq' / 'Ne' if the closure body is a single (in)equality comparison of its two tuple parts, else None"""
     if clo is None or clo.get("k") != "Closure":
@@ -745,6 +775,49 @@ def r20d(P, R):
                            % (f.path, short(call_name(n))), loc=f.loc())
     if not raw_fns:
         R.holds("R20-d", "normalised-consumer", "every public path function normalises its inputs itself")
+    # ---- the specifier is computed for *each* declaration file: inside a loop over files, the computation must not sit under a
+    # condition on state carried from earlier iterations (a hand-rolled per-directory cache serves one file another file's path)
+    spec_fns = {relative.path}
+    for f in P.fns.values():
+        if f.path.startswith("nitrogql_cli::") and f.kind in ("Fn", "AssocFn") and not f.derived and relative.path in P.reachable([f]) and f.path != "nitrogql_cli::generate::run_generate":
+            if any(call_name(n) == relative.path for n in f.walk() if n.get("k") == "Call") or len(P.callees_of(f)[0]) < 12:
+                spec_fns.add(f.path)
+    from templates import guards_of
+    for f in P.fns.values():
+        if not f.path.startswith("nitrogql_cli::") or f.derived or "::tests" in f.path:
+            continue
+        nodes = f.nodes()
+        for i, (n, par) in enumerate(nodes):
+            if not (n.get("k") == "Call" and call_name(n) in spec_fns and call_name(n) != f.path):
+                continue
+            # nearest enclosing loop
+            loop, p = None, par
+            while p >= 0:
+                if nodes[p][0].get("k") == "Loop":
+                    loop = nodes[p][0]
+                    break
+                if nodes[p][0].get("k") == "Closure":
+                    break
+                p = nodes[p][1]
+            if loop is None:
+                continue
+            inside = {id(y) for y in subnodes(loop)}
+            carried = {y["local"] for y in f.walk() if y.get("k") == "Binding" and "Mut" in str(y.get("mode", "")) and id(y) not in inside}
+            bad = []
+            for g in guards_of(f, i, stop=loop):
+                e = g.get("e")
+                if e is None:
+                    continue
+                used = {y["local"] for y in subnodes(e) if y.get("k") == "Path" and "local" in y}
+                if used & carried and g["kind"] in ("cond", "arm", "pat"):
+                    bad.append(sorted(y["name"] for y in f.walk() if y.get("k") == "Binding" and y.get("local") in (used & carried))[0])
+            key = "per-file:%s" % short(f.path)
+            if bad:
+                R.violated("R20-d", key, "%s computes the schema import specifier for a file only under a condition on `%s`, state carried over from "
+                           "earlier iterations of the loop over files: whenever that condition says 'reuse', the file gets the relative path "
+                           "computed for another file (another directory)" % (f.path, bad[0]), loc=f.loc())
+            else:
+                R.holds("R20-d", key, "inside the loop over files the specifier is computed for every file")
     # ---- the extension table
     tbl = _ext_table(P)
     if tbl is None:
